@@ -68,12 +68,17 @@ def seeds_for_all_orders(items, limit=400):
 def place(w, case, n):
     """creates sources; returns (cwd, build_dir, [source paths in canonical order])"""
     srcdir = w / ("moved away" if case.get("srcdir") == "moved" else "") / "src"
-    files = []
     from vmc.drive import cli
 
-    files = cli.write_sources(srcdir, source_texts(n))
+    texts = source_texts(n)
+    if case.get("layout", "two_dirs") == "two_dirs":
+        # the same files spread over two sibling directories (the first source alone in the second one)
+        files = cli.write_sources(srcdir / "s2", texts[:1]) + cli.write_sources(srcdir / "s1", texts[1:])
+        srcdir = srcdir / "s1"
+    else:
+        files = cli.write_sources(srcdir, texts)
     bd = {"default": w / "build", "nested": w / "a" / "b" / "c" / "d" / "build", "space": w / "dir with space" / "build"}[case.get("build_dir", "default")]
-    cwd = {"work": w, "src": srcdir, "root": Path("/")}[case.get("cwd", "work")]
+    cwd = {"work": w, "src": srcdir, "src-rel": srcdir, "root": Path("/")}[case.get("cwd", "work")]
     return cwd, bd, files
 
 
@@ -101,7 +106,7 @@ def one_build(case):
             case = dict(case, seed=found)
         perm = case.get("perm") or list(range(n))
         args = [str(files[i]) for i in perm]
-        if case.get("relative"):
+        if case.get("relative") or case.get("cwd") == "src-rel":
             args = [os.path.relpath(a, cwd) for a in args]
         flags = fmt_flags(fmt)
         if case.get("build_dir", "default") != "default" or case.get("cwd", "work") != "work":
@@ -112,7 +117,7 @@ def one_build(case):
 
             t = w / "c.toml"
             t.write_text(toml.dumps({"color_format": fmt, "output_file": "Font.ttf", "axis": {"wght": {"name": "Weight", "default": 400}},
-                                     "master": {"regular": {"style_name": "Regular", "position": {"wght": 400}, "srcs": [str(files[0].parent / "*.svg")]}}}))
+                                     "master": {"regular": {"style_name": "Regular", "position": {"wght": 400}, "srcs": sorted({str(f.parent / "*.svg") for f in files})}}}))
             flags, args = ([f"--build_dir={bd}"] if f"--build_dir={bd}" in flags else []), [str(t)]
         jobs = case.get("jobs")
         if jobs:
@@ -287,7 +292,7 @@ def replay(case):
         targets, pre = graph_for(case["fmt"], case["n"])
         b = execute(dict(case, order=next(linear_extensions(targets, pre))))
     else:
-        b = execute({"fmt": case["fmt"], "n": case.get("n", 3)})
+        b = execute({"fmt": case["fmt"], "n": case.get("n", 3), "layout": case.get("layout", "two_dirs")})
     if not (a and b and "sha" in a[0] and "sha" in b[0]):
         return a + b
     if a[0]["sha"] != b[0]["sha"]:
@@ -327,7 +332,7 @@ def run(report, tier, only=None):
         "seed": [0] + seed_values + [{"paths_order": list(o)} for o in itertools.permutations(range(3))],
         "jobs": [None, 1, 2, 16],
         "build_dir": ["default", "nested", "space"],
-        "cwd": ["work", "src", "root"],
+        "cwd": ["work", "src", "src-rel", "root"],  # src-rel: run inside the source directory with relative arguments
         "srcdir": ["here", "moved"],
         "relative": [False, True],
         "glob": [False, True],
@@ -337,9 +342,13 @@ def run(report, tier, only=None):
     shas = {}
     if only in (None, "lattice"):
         cases = []
-        for fmt in FORMATS:
-            for d in devs:
-                cases.append(dict(d, fmt=fmt, n=n))
+        # the sources live in two sibling directories (quick) / also in one directory (thorough); fonts are only
+        # compared within one layout: which directory a file is in is part of its name as far as the order of
+        # sources goes, and the statement does not speak of it
+        for layout in (["two_dirs"] if tier == "quick" else ["two_dirs", "one_dir"]):
+            for fmt in FORMATS:
+                for d in devs:
+                    cases.append(dict(d, fmt=fmt, n=n, layout=layout))
         res = listing.run(report, cases, execute, timeout=900, jobs=6)
         realised = wanted = 0
         for c, vs in zip(cases, res):
@@ -347,7 +356,7 @@ def run(report, tier, only=None):
                 wanted += 1
                 realised += 1 if (vs and "sha" in vs[0]) else 0
             if vs and "sha" in vs[0]:
-                shas.setdefault(c["fmt"], {}).setdefault(vs[0]["sha"], []).append(c)
+                shas.setdefault(c["fmt"] + "/" + c["layout"], {}).setdefault(vs[0]["sha"], []).append(c)
         report.extra["set_orders_realised"]["source-paths"] = f"{realised}/{wanted} builds (3! orders x formats), each under a seed searched for its own path strings"
         if realised < wanted:
             report.cap_hit(f"{wanted - realised} iteration orders of the source-path set were not realised within the seed search limit")
